@@ -223,6 +223,14 @@ def check(pid, tier="quick", base_seed=0, workers=None, n=None, wall_cap=None):
     mod = prop_module(pid)
     total = run_campaign(pid, tier, base_seed, workers, n, wall_cap)
     known = findings.load()
+    post_extra = {}
+    if hasattr(mod, "post"):
+        t1 = time.time()
+        post_extra, post_viol = mod.post(tier, base_seed)
+        total["viol"].extend(post_viol)
+        for k, v in post_extra.items():
+            total["stats"][k] = total["stats"].get(k, 0) + v
+        total["wall_s"] += time.time() - t1
     by_key = {}
     for (i, spec, v) in total["viol"]:
         by_key.setdefault(v["key"], []).append((i, spec, v))
